@@ -24,16 +24,18 @@ Reads GNSS ephemeris data from RINEX navigation file in format 2.11 (see :cite:`
 """
 # Standard library imports
 import pathlib
+from typing import Any, Optional
 
 # Midgard imports
 from midgard import parsers
 from midgard.dev import log
 from midgard.dev import plugins
 from midgard.gnss import gnss
+from midgard.parsers._parser import Parser
 
 
 @plugins.register
-def get_rinex2_or_rinex3(file_path: pathlib.PosixPath) -> "TODO":
+def get_rinex2_or_rinex3(file_path: pathlib.PosixPath, encoding: Optional[str] = None, **parser_args: Any) -> Parser:
     """Use either Rinex2NavParser or Rinex3NavParser for reading orbit files in format 2.11 or 3.03.
 
     Firstly the RINEX file version is read. Based on the read version number it is decided, which Parser should be
@@ -41,6 +43,11 @@ def get_rinex2_or_rinex3(file_path: pathlib.PosixPath) -> "TODO":
 
     Args:
         file_path (pathlib.PosixPath):  File path to broadcast orbit file.
+        encoding:                       Encoding of the file (as passed on by `parsers.parse_file`).
+        parser_args:                    Additional arguments passed on to the chosen parser.
+
+    Returns:
+        Parser of the chosen type. It has not parsed the file yet, `parsers.parse_file` does that.
     """
     version = gnss.get_rinex_file_version(file_path=file_path)
     if version.startswith("2"):
@@ -50,4 +57,7 @@ def get_rinex2_or_rinex3(file_path: pathlib.PosixPath) -> "TODO":
     else:
         log.fatal(f"Unknown RINEX format {version} is used in file {file_path}")
 
-    return parsers.parse_file(parser_name=parser_name, file_path=file_path, use_cache=True)
+    # Return the parser without parsing: parsers.parse_file (the caller) runs parse() on what a plug-in returns
+    return plugins.call(
+        package_name=parsers.__name__, plugin_name=parser_name, file_path=file_path, encoding=encoding, **parser_args
+    )
